@@ -11,7 +11,7 @@ class C01(Spec):
     family = 'int'
     title = 'secure integers exact in every configuration'
     quick = {'runs': 2500, 'wall': 75}
-    thorough = {'runs': 400000, 'wall': 900}
+    thorough = {'runs': 3000000, 'wall': 900}
 
     def make_case(self, seed, tier):
         rng = random.Random(f'C01/{seed}')
@@ -29,7 +29,7 @@ class C08(Spec):
     family = 'int'
     title = 'results and termination independent of the schedule'
     quick = {'runs': 3000, 'wall': 75}
-    thorough = {'runs': 600000, 'wall': 900}
+    thorough = {'runs': 3000000, 'wall': 900}
     K = 4   # schedules per program
     rule = ('one evaluation = one simulated run; every generated program (secure integers 70%, finite fields 20%, fixed '
             'point 10%; with awaits on possibly-completed values, mid-program outputs, barriers, sleeps, per-party delays, '
@@ -71,7 +71,7 @@ class C09(Spec):
     title = 'unique labels, exactly-once consumption'
     technique = 'deterministic simulation + wire monitor (independent frame parser) + receive/buffer accounting'
     quick = {'runs': 2500, 'wall': 75}
-    thorough = {'runs': 500000, 'wall': 900}
+    thorough = {'runs': 3000000, 'wall': 900}
     expected_probes = ('frames',)
 
     def make_case(self, seed, tier):
@@ -94,7 +94,7 @@ class C11(Spec):
     title = 'consistent degree-t sharings'
     technique = "deterministic simulation + god's-eye interpolation of all parties' shares (independent Lagrange oracle)"
     quick = {'runs': 2000, 'wall': 75}
-    thorough = {'runs': 400000, 'wall': 900}
+    thorough = {'runs': 3000000, 'wall': 900}
     expected_probes = ('shares_checked', 'shares_value_checked')
 
     def make_case(self, seed, tier):
@@ -120,7 +120,7 @@ class C14(Spec):
     title = 'dealt sharings have full threshold degree'
     technique = 'deterministic simulation + dealing monitor (secrets-seam draw log, independent polynomial reconstruction, wire comparison)'
     quick = {'runs': 2000, 'wall': 75}
-    thorough = {'runs': 400000, 'wall': 900}
+    thorough = {'runs': 3000000, 'wall': 900}
     expected_probes = ('dealings', 'dealt_secrets')
 
     def make_case(self, seed, tier):
@@ -147,7 +147,7 @@ class C35(Spec):
     title = 'barriers and shutdown wait for all started MPyC coroutines'
     technique = 'deterministic simulation + task registry invariants at barrier return / connection close / exit'
     quick = {'runs': 2500, 'wall': 75}
-    thorough = {'runs': 500000, 'wall': 900}
+    thorough = {'runs': 3000000, 'wall': 900}
     expected_probes = ('barrier_returns', 'close_calls', 'mpyc_tasks')
 
     def make_case(self, seed, tier):
@@ -181,7 +181,7 @@ class C36(Spec):
     technique = ('deterministic simulation with crash injection: fault-free twin run fixes the execution, one party '
                  'is crash-stopped at a chosen loop iteration of it (mid-frame cuts, FIN/RST/silent), prefix oracle on survivors')
     quick = {'runs': 5000, 'wall': 80}
-    thorough = {'runs': 300000, 'wall': 900}
+    thorough = {'runs': 3000000, 'wall': 900}
     expected_probes = ('crash_fired', 'crash_midframe', 'survivor_outputs_checked')
     rule = ('one evaluation = fault-free twin run + the same seeded execution with one party crash-stopped at a chosen '
             'iteration; distinct = sha256(configuration, program, crash plan, tape); non-trivial = the crash fired while '
@@ -334,7 +334,7 @@ class C04(Spec):
     family = 'fld'
     title = 'secure finite-field arithmetic equals field arithmetic'
     quick = {'runs': 2500, 'wall': 75}
-    thorough = {'runs': 400000, 'wall': 900}
+    thorough = {'runs': 3000000, 'wall': 900}
     expected_probes = ()
 
     def make_case(self, seed, tier):
@@ -389,7 +389,7 @@ class C02(Spec):
     title = 'secure fixed-point arithmetic stays within its rounding bounds'
     technique = 'deterministic simulation + exact rational interval reference (stated bounds composed by interval propagation)'
     quick = {'runs': 1500, 'wall': 75}
-    thorough = {'runs': 300000, 'wall': 900}
+    thorough = {'runs': 3000000, 'wall': 900}
 
     def make_case(self, seed, tier):
         rng = random.Random(f'C02/{seed}')
@@ -410,7 +410,7 @@ class C03(Spec):
     title = 'fixed-point integrality flags are never wrong'
     technique = 'deterministic simulation; every program variable is opened and its integral flag compared with the value'
     quick = {'runs': 1500, 'wall': 75}
-    thorough = {'runs': 300000, 'wall': 900}
+    thorough = {'runs': 3000000, 'wall': 900}
     expected_probes = ('flags_true', 'flags_false')
 
     def make_case(self, seed, tier):
@@ -437,7 +437,7 @@ class C10(Spec):
     technique = ('deterministic simulation of the real MessageExchanger over an in-memory byte stream: seeded chunkings '
                  '(boundary-seeking, bytewise), enumerated single cut positions, receive-before/after-arrival interleavings')
     quick = {'runs': 4000, 'wall': 75}
-    thorough = {'runs': 600000, 'wall': 900}
+    thorough = {'runs': 3000000, 'wall': 900}
     expected_probes = ('recv_before_arrival', 'recv_after_arrival', 'empty_payloads', 'keys_checked')
     ENUM = 1200     # seeds below this (mod 4000) enumerate single cut offsets of a small scenario
 
@@ -483,7 +483,7 @@ class C16(Spec):
     technique = ('deterministic simulation of connection set-up for all (m,t): staggered starts, refused connects + retry, '
                  'handshake chunkings; god\'s-eye comparison of every party\'s key table')
     quick = {'runs': 2500, 'wall': 75}
-    thorough = {'runs': 400000, 'wall': 900}
+    thorough = {'runs': 3000000, 'wall': 900}
     expected_probes = ('keys_checked',)
 
     def make_case(self, seed, tier):
@@ -517,7 +517,7 @@ class C07(Spec):
     title = 'input, output and transfer reach exactly the designated parties'
     technique = 'deterministic simulation; expectation computed from the sender/receiver graph alone'
     quick = {'runs': 3000, 'wall': 75}
-    thorough = {'runs': 500000, 'wall': 900}
+    thorough = {'runs': 3000000, 'wall': 900}
     expected_probes = ('transfer', 'input', 'output', 'open')
 
     def make_case(self, seed, tier):
@@ -536,7 +536,7 @@ class C19(Spec):
     technique = ('deterministic simulation: the operation runs alone between two global quiescence points of the virtual '
                  'clock; the simulated network counts bytes written to every party in that window')
     quick = {'runs': 3000, 'wall': 75}
-    thorough = {'runs': 500000, 'wall': 900}
+    thorough = {'runs': 3000000, 'wall': 900}
     expected_probes = ('window_ops', 'non_receivers_checked', 'window_traffic_seen')
 
     def make_case(self, seed, tier):
@@ -636,7 +636,7 @@ class C06(Spec):
     family = 'conv'
     title = 'secure conversion between types preserves values'
     quick = {'runs': 3000, 'wall': 75}
-    thorough = {'runs': 500000, 'wall': 900}
+    thorough = {'runs': 3000000, 'wall': 900}
     expected_probes = ('int->int', 'int->fxp', 'fxp->int', 'fxp->fxp', 'int->fld', 'fld->int', 'fld->fld')
 
     def make_case(self, seed, tier):
@@ -660,7 +660,7 @@ class C29(Spec):
     technique = ('deterministic simulation (m>1 execution of the comparator network); 0-1 vectors enumerated for small n '
                  '(0-1 principle), seeded random lists with duplicates beyond')
     quick = {'runs': 1600, 'wall': 80}
-    thorough = {'runs': 200000, 'wall': 900}
+    thorough = {'runs': 3000000, 'wall': 900}
     OPS = ('sorted', 'sorted_rev', 'seclist_sort', 'min_max', 'argmin', 'argmax', 'sorted_rows', 'argmin_rows')
     rule = ('seeds below the enumeration bound map to (n, 0-1 vector, operation) and enumerate all 2^n vectors for n<=6 '
             '(quick) / n<=9 (thorough) per operation; remaining seeds draw random lists (n<=12, duplicates, negatives) of '
@@ -756,7 +756,7 @@ class C30(Spec):
     technique = ('deterministic simulation (m>1 execution); inputs enumerated exhaustively for short bit vectors / small n, '
                  'seeded random beyond')
     quick = {'runs': 2400, 'wall': 80}
-    thorough = {'runs': 300000, 'wall': 900}
+    thorough = {'runs': 3000000, 'wall': 900}
     rule = ('seeds below the enumeration bound enumerate: add_bits over all pairs of bit vectors of length <= 3 (quick) / 5, '
             'find over all bit vectors of length <= 5 / 8 x targets x 7 output modes, find with explicit not-found value e in (0, "0", 3, "len(x)-1", "len(x)+2", -1) x (plain, f, cs_f) over the corner vectors of length <= 4 / 6, unit_vector for all 0<=a<n, n<=9 / 17, '
             'to_bits/from_bits/trailing_zeros over all values of SecInt(4..6) ; the rest is seeded random; '
@@ -876,7 +876,7 @@ class C31(Spec):
     title = 'secure lists behave like Python lists under any operation history'
     technique = 'deterministic simulation + model-based checking: seeded operation histories, Python list as reference model, contents and result compared after every operation'
     quick = {'runs': 2000, 'wall': 80}
-    thorough = {'runs': 300000, 'wall': 900}
+    thorough = {'runs': 3000000, 'wall': 900}
     expected_probes = ('get_secret', 'set_secret', 'del_secret', 'insert_secret', 'pop_secret', 'remove', 'sort', 'cmp')
 
     def make_case(self, seed, tier):
@@ -901,7 +901,7 @@ class C33(Spec):
     technique = ('deterministic simulation; (a) seeded runs checked against range/shape invariants, (b) exhaustive '
                  'enumeration of the secret random bits through a random_bits seam: exact outcome masses vs 1/N')
     quick = {'runs': 1500, 'wall': 85}
-    thorough = {'runs': 200000, 'wall': 900}
+    thorough = {'runs': 3000000, 'wall': 900}
     level_text = ('(a) seeded search for range/shape violations; (b) for small parameters an exhaustive sweep of the '
                   'random-bit strings up to depth D gives exact lower/upper bounds on every outcome probability, which must '
                   'bracket the documented probability; sampling for (a), bounded exhaustive for (b)')
@@ -1023,7 +1023,7 @@ class C34(Spec):
     family = 'stat'
     title = "secure statistics agree with Python's statistics module"
     quick = {'runs': 2000, 'wall': 85}
-    thorough = {'runs': 200000, 'wall': 900}
+    thorough = {'runs': 3000000, 'wall': 900}
     per_run_timeout = 300
 
     def make_case(self, seed, tier):
@@ -1047,7 +1047,7 @@ class C28(Spec):
     family = 'grp'
     title = 'secure group operations match plain group operations'
     quick = {'runs': 600, 'wall': 85}
-    thorough = {'runs': 100000, 'wall': 900}
+    thorough = {'runs': 3000000, 'wall': 900}
     per_run_timeout = 300
 
     def make_case(self, seed, tier):
@@ -1158,7 +1158,7 @@ class C05(Spec):
     title = 'secure floating-point arithmetic approximates float arithmetic'
     technique = 'deterministic simulation + exact rational interval reference (relative tolerances of the property composed)'
     quick = {'runs': 2500, 'wall': 85}
-    thorough = {'runs': 100000, 'wall': 900}
+    thorough = {'runs': 3000000, 'wall': 900}
     per_run_timeout = 300
 
     def make_case(self, seed, tier):
@@ -1199,7 +1199,7 @@ class C15(Spec):
     technique = ("deterministic simulation of the real key distribution (handshake under chunking/staggered starts); every "
                  "party evaluates PRSS locally; god's-eye interpolation with an independent PRF re-implementation")
     quick = {'runs': 3000, 'wall': 75}
-    thorough = {'runs': 500000, 'wall': 900}
+    thorough = {'runs': 3000000, 'wall': 900}
     expected_probes = ('prss_share', 'prss_zero', 'prss_values_checked')
 
     def make_case(self, seed, tier):
@@ -1232,7 +1232,7 @@ class C39(Spec):
     technique = ('deterministic simulation: every (m, t) booted through the real setup(); SecFld argument combinations '
                  'resolved and exercised end to end (input, multiply, open) in the booted m-party world')
     quick = {'runs': 2500, 'wall': 75}
-    thorough = {'runs': 300000, 'wall': 900}
+    thorough = {'runs': 3000000, 'wall': 900}
     expected_probes = ('lifted', 'not_lifted', 'num_types', 'illegal_threshold_refused')
 
     def make_case(self, seed, tier):
@@ -1292,7 +1292,7 @@ class C37(Spec):
     title = 'secure NumPy arrays agree with plain NumPy and with secure scalars'
     technique = 'deterministic simulation (numpy mode) + plain NumPy reference on exact Python ints / Fractions'
     quick = {'runs': 6000, 'wall': 85}
-    thorough = {'runs': 200000, 'wall': 900}
+    thorough = {'runs': 3000000, 'wall': 900}
     per_run_timeout = 300
     assumptions = ['numpy 2.5.3 from the offline wheelhouse installed into /verif/.deps (not part of the baseline venv)']
 
@@ -1348,7 +1348,7 @@ class C38(Spec):
     title = 'secure polynomial arithmetic agrees with plain polynomial arithmetic'
     technique = 'deterministic simulation (numpy mode) + gfpx polynomials as reference'
     quick = {'runs': 3000, 'wall': 85}
-    thorough = {'runs': 100000, 'wall': 900}
+    thorough = {'runs': 3000000, 'wall': 900}
     per_run_timeout = 300
     assumptions = ['numpy 2.5.3 from the offline wheelhouse installed into /verif/.deps', 'gfpx plain polynomial arithmetic is the reference (C23 is not claimed here)',
                    "the clause 'only the length bound is public' is not checked (no wire analysis for secure polynomials)"]
@@ -1423,7 +1423,7 @@ class C18(Spec):
                   'about log2(N) bits of the k required); it cannot certify statistical distance 2^-k, which would need far '
                   'more than 2^k samples')
     quick = {'runs': 8400, 'wall': 85}
-    thorough = {'runs': 400000, 'wall': 900}
+    thorough = {'runs': 3000000, 'wall': 900}
     expected_probes = ('internal_openings', 'prss_evaluations')
     rule = ('one evaluation = one simulated 3..5-party run of a small template program (comparison, lsb, mod, to_bits, '
             'truncation, conversion, zero test) whose result is not opened; seeds alternate between the two secret inputs of '
